@@ -1,7 +1,229 @@
+(* C13 — peering: lower-priority operators pause, exactly the top one is active.
+   Only statements here; proofs in Proofs/Peering.v and Proofs/PeerNet.v.
+   Model: Model/Peering.v (process_peering_event / touch / keepalive period, tied to the code by the
+   differential) and Model/PeerNet.v (N operators + one shared peering object, tied by trace acceptance).
+   Times in ms; [oint]/[odate] are the oracles int(str) / iso8601.parse_date: every theorem holds for ALL of them. *)
 From Coq Require Import ZArith List String Bool.
-From KV Require Import Base.Json Model.Peering Proofs.Peering.
+From KV Require Import Base.Json Model.Peering Model.PeerNet Proofs.Peering Proofs.PeerNet.
+Import ListNotations.
+Open Scope string_scope.
 Open Scope Z_scope.
+Open Scope list_scope.
 
-Theorem C13_keepalive_positive : forall l j, 1 <= ka_period l j.
-Proof. exact ka_period_pos. Qed.
-Print Assumptions C13_keepalive_positive.
+(* ---------- one peering event (process_peering_event), any status content ---------- *)
+
+(* paused (toggle on) iff some record other than one's own parses to a live Peer of priority >= own;
+   for EVERY status object on which the code does not raise: unknown fields, missing fields, dead records *)
+Theorem C13_paused_iff_blocker : forall oint odate c t kvs now o,
+  process oint odate c (Some t) (Some (c_name c)) (Some (JObj kvs)) now = POk (Some o) ->
+  (o_toggle o = Some true <->
+   exists id info p, In (id, info) kvs /\ mk_peer oint odate now id info = POk p /\ blocker c p).
+Proof. exact process_paused_iff. Qed.
+Print Assumptions C13_paused_iff_blocker.
+
+(* the toggle is switched exactly when its state differs from the verdict *)
+Theorem C13_turn_only_on_change : forall c t ps o, decide_peers c (Some t) ps = POk o ->
+  forall b, o_turn o = Some b <-> (o_toggle o = Some b /\ t = negb b).
+Proof. exact turn_iff. Qed.
+Print Assumptions C13_turn_only_on_change.
+
+(* record content: unknown fields are ignored; missing fields mean priority 0, lifetime 60 s, seen now *)
+Theorem C13_unknown_fields_ignored : forall oint odate now id k v o, known_field k = false ->
+  mk_peer oint odate now id (JObj ((k, v) :: o)) = mk_peer oint odate now id (JObj o).
+Proof. exact mk_peer_ignores_unknown. Qed.
+Print Assumptions C13_unknown_fields_ignored.
+
+Theorem C13_missing_fields_defaults : forall oint odate now id, dt_ok (now + 60000) = true ->
+  mk_peer oint odate now id (JObj []) = POk (mkPeer id (JNum 0) 60 now (now + 60000) false).
+Proof. exact mk_peer_defaults. Qed.
+Print Assumptions C13_missing_fields_defaults.
+
+(* a parsed Peer is exactly: given identity, stored priority, int(lifetime), parsed lastseen (or now),
+   deadline = lastseen + lifetime, dead iff deadline <= now *)
+Theorem C13_peer_parse : forall oint odate now id info p, mk_peer oint odate now id info = POk p ->
+  exists o, info = JObj o /\ has "identity" o = false /\ has "self" o = false /\
+    p_id p = id /\
+    p_prio p = dflt (JNum 0) (lookup "priority" o) /\
+    py_int oint (dflt (JNum 60) (lookup "lifetime" o)) = POk (p_life p) /\
+    py_lastseen odate now (lookup "lastseen" o) = POk (p_seen p) /\
+    p_deadline p = p_seen p + p_life p * 1000 /\
+    p_dead p = (p_deadline p <=? now).
+Proof. exact mk_peer_inv. Qed.
+Print Assumptions C13_peer_parse.
+
+(* the wake-up time is the minimum blocker deadline; none without a blocker *)
+Theorem C13_wakeup_at_deadline : forall oint odate c tg kvs now o,
+  process oint odate c tg (Some (c_name c)) (Some (JObj kvs)) now = POk (Some o) ->
+  (o_wake o = None <-> ~ exists id info p, In (id, info) kvs /\ mk_peer oint odate now id info = POk p /\ blocker c p) /\
+  (forall w, o_wake o = Some w ->
+     (exists id info p, In (id, info) kvs /\ mk_peer oint odate now id info = POk p /\ blocker c p /\ p_deadline p = w) /\
+     (forall id info p, In (id, info) kvs -> mk_peer oint odate now id info = POk p -> blocker c p -> w <= p_deadline p)).
+Proof. exact process_wake. Qed.
+Print Assumptions C13_wakeup_at_deadline.
+
+(* ... at which the operator touches itself (forcing a re-evaluation), unless a new event came first *)
+Theorem C13_touch_at_wake : forall o now1 w, o_wake o = Some w ->
+  touch_time o now1 None = Some (Z.max now1 w) /\
+  (forall t, now1 < w -> t < w -> touch_time o now1 (Some t) = None).
+Proof. intros o now1 w H; split; [exact (touch_at_wake o now1 w H) | intros t; exact (interrupted_no_touch o now1 w t H)]. Qed.
+Print Assumptions C13_touch_at_wake.
+
+(* expired records — exactly those — are cleaned up (of the snapshot processed) *)
+Theorem C13_cleanup_dead : forall oint odate c tg kvs now o,
+  process oint odate c tg (Some (c_name c)) (Some (JObj kvs)) now = POk (Some o) -> c_autoclean c = true ->
+  forall id, In id (o_clean o) <->
+    exists info p, In (id, info) kvs /\ mk_peer oint odate now id info = POk p /\ p_dead p = true.
+Proof. exact process_clean. Qed.
+Print Assumptions C13_cleanup_dead.
+
+(* a peering object of another name is ignored; an incomparable live priority raises TypeError
+   before any effect; numeric priorities never raise *)
+Theorem C13_foreign_name_ignored : forall oint odate c tg name status now,
+  name <> Some (c_name c) -> process oint odate c tg name status now = POk None.
+Proof. exact process_foreign_name_ignored. Qed.
+Print Assumptions C13_foreign_name_ignored.
+
+Theorem C13_decision_total_on_numbers : forall c tg ps,
+  Forall (fun p => num_of (p_prio p) <> None) (live_of (c_id c) ps) -> exists o, decide_peers c tg ps = POk o.
+Proof. exact decide_total. Qed.
+Print Assumptions C13_decision_total_on_numbers.
+
+(* ---------- keep-alive ---------- *)
+(* renewal period: at least 5 s before expiry for lifetime >= 11, strictly before expiry for lifetime >= 2 *)
+Theorem C13_keepalive_margin : forall l j, 5 <= j <= 10 ->
+  (11 <= l -> ka_period l j <= l - 5) /\ (2 <= l -> ka_period l j < l) /\ 1 <= ka_period l j.
+Proof. intros l j H; split; [intros; now apply ka_margin | split; [intros; now apply ka_before_expiry | apply ka_period_pos]]. Qed.
+Print Assumptions C13_keepalive_margin.
+
+(* "renews before it expires" for EVERY lifetime is false (O1: lifetime 1 renews exactly at expiry) ... *)
+Theorem C13_renew_before_expiry_refuted : exists l j, 0 <= l /\ 5 <= j <= 10 /\ ~ (ka_period l j < l).
+Proof. exact ka_boundary_refuted. Qed.
+Print Assumptions C13_renew_before_expiry_refuted.
+
+(* ... and true exactly from lifetime 2 on *)
+Theorem C13_renew_before_expiry_partial : forall l j, 2 <= l -> 5 <= j <= 10 -> ka_period l j < l.
+Proof. exact ka_before_expiry. Qed.
+Print Assumptions C13_renew_before_expiry_partial.
+
+(* the record written on graceful exit (lifetime=0) is a removal; the regular one carries now *)
+Theorem C13_record_withdrawn_on_exit : forall c now,
+  touch_record c (Some 0) now = None /\ (0 < c_life c -> touch_record c None now = Some (c_prio c, c_life c, now)).
+Proof. intros c now; split; [exact (touch_exit_removes c now) | exact (touch_live c now)]. Qed.
+Print Assumptions C13_record_withdrawn_on_exit.
+
+(* ---------- N operators, one shared object: every order of starts, exits, kills, keep-alives,
+   foreign writes and every delivery delay (all label sequences) ---------- *)
+
+Theorem C13_net_invariant : forall t0 tr s, run (net0 t0) tr = Some s -> Inv s.
+Proof. exact reachable_inv. Qed.
+Print Assumptions C13_net_invariant.
+
+(* an operator that has processed everything delivered to it, and whose sleep is not due, is paused
+   iff the shared object holds a live record of somebody else with priority >= its own *)
+Theorem C13_toggle_correct : forall t0 tr s i, run (net0 t0) tr = Some s -> synced s i ->
+  op_toggle (n_ops s i) = has_blocker i (op_prio (n_ops s i)) (n_now s) (n_status s).
+Proof. exact toggle_correct. Qed.
+Print Assumptions C13_toggle_correct.
+
+(* exactly the top one is active, among running operators that see each other *)
+Theorem C13_exactly_top_active : forall t0 tr s ids, run (net0 t0) tr = Some s ->
+  (forall i, In i ids -> synced s i) ->
+  (forall i, In i ids -> exists r, In (i, r) (n_status s) /\ r_prio r = op_prio (n_ops s i) /\ n_now s < dl_at (n_now s) r) ->
+  (forall j r, In (j, r) (n_status s) -> n_now s < dl_at (n_now s) r -> In j ids /\ r_prio r = op_prio (n_ops s j)) ->
+  forall i, In i ids ->
+    (op_toggle (n_ops s i) = false <-> forall j, In j ids -> j <> i -> op_prio (n_ops s j) < op_prio (n_ops s i)).
+Proof. exact active_iff_top. Qed.
+Print Assumptions C13_exactly_top_active.
+
+Theorem C13_at_most_one_active : forall t0 tr s ids, run (net0 t0) tr = Some s ->
+  (forall i, In i ids -> synced s i) ->
+  (forall i, In i ids -> exists r, In (i, r) (n_status s) /\ r_prio r = op_prio (n_ops s i) /\ n_now s < dl_at (n_now s) r) ->
+  (forall j r, In (j, r) (n_status s) -> n_now s < dl_at (n_now s) r -> In j ids /\ r_prio r = op_prio (n_ops s j)) ->
+  forall i j, In i ids -> In j ids -> op_toggle (n_ops s i) = false -> op_toggle (n_ops s j) = false -> i = j.
+Proof. exact at_most_one_active. Qed.
+Print Assumptions C13_at_most_one_active.
+
+(* equal priorities: a conflict, both pause (as the code behaves) *)
+Theorem C13_equal_priority_conflict : forall t0 tr s ids, run (net0 t0) tr = Some s ->
+  (forall i, In i ids -> synced s i) ->
+  (forall i, In i ids -> exists r, In (i, r) (n_status s) /\ r_prio r = op_prio (n_ops s i) /\ n_now s < dl_at (n_now s) r) ->
+  (forall j r, In (j, r) (n_status s) -> n_now s < dl_at (n_now s) r -> In j ids /\ r_prio r = op_prio (n_ops s j)) ->
+  forall i j, In i ids -> In j ids -> i <> j -> op_prio (n_ops s i) = op_prio (n_ops s j) ->
+    op_toggle (n_ops s i) = true /\ op_toggle (n_ops s j) = true.
+Proof. exact equal_priority_conflict. Qed.
+Print Assumptions C13_equal_priority_conflict.
+
+(* the hypotheses above are satisfiable: a reachable state with two operators that see each other *)
+Theorem C13_top_active_nonvacuous :
+  exists s, run (net0 0) tr_two_ops = Some s /\
+    (forall i, In i ["a"; "b"] -> synced s i) /\
+    (forall i, In i ["a"; "b"] -> exists r, In (i, r) (n_status s) /\ r_prio r = op_prio (n_ops s i) /\ n_now s < dl_at (n_now s) r) /\
+    (forall j r, In (j, r) (n_status s) -> n_now s < dl_at (n_now s) r -> In j ["a"; "b"] /\ r_prio r = op_prio (n_ops s j)) /\
+    op_toggle (n_ops s "a") = true /\ op_toggle (n_ops s "b") = false.
+Proof. exact two_ops_example. Qed.
+Print Assumptions C13_top_active_nonvacuous.
+
+(* take-over.  Graceful exit: the record is gone at once (then C13_exactly_top_active applies to the rest).
+   Kill: the record stays until its deadline; a paused operator whose blockers have all expired has its
+   wake-up due — the self-touch is enabled and (tick_ok) time cannot pass it — so it re-evaluates. *)
+Theorem C13_takeover_after_exit : forall s i s', step s (LExit i) = Some s' ->
+  (forall r, ~ In (i, r) (n_status s')) /\ op_phase (n_ops s' i) = Exiting.
+Proof. exact exit_withdraws. Qed.
+Print Assumptions C13_takeover_after_exit.
+
+Theorem C13_takeover_after_kill : forall t0 tr s i, run (net0 t0) tr = Some s ->
+  is_up (n_ops s i) = true -> op_listed (n_ops s i) = true -> op_inbox (n_ops s i) = [] ->
+  op_toggle (n_ops s i) = true -> has_blocker i (op_prio (n_ops s i)) (n_now s) (n_status s) = false ->
+  exists w, op_wake (n_ops s i) = Some w /\ w <= n_now s /\ exists s', step s (LWake i) = Some s'.
+Proof. exact wake_due. Qed.
+Print Assumptions C13_takeover_after_kill.
+
+Theorem C13_kill_keeps_record : forall s i s', step s (LKill i) = Some s' ->
+  n_status s' = n_status s /\ op_phase (n_ops s' i) = Down.
+Proof. exact kill_keeps_record. Qed.
+Print Assumptions C13_kill_keeps_record.
+
+(* cleaned ids are gone from the object *)
+Theorem C13_cleaned_are_gone : forall s i v cleaned tg s', step s (LObserve i v cleaned tg) = Some s' ->
+  forall id r, In id cleaned -> ~ In (id, r) (n_status s').
+Proof. exact observe_cleans. Qed.
+Print Assumptions C13_cleaned_are_gone.
+
+(* "only expired records are cleaned" is FALSE for every delivery timing (F1301): a reachable state where
+   a live record of a running operator is removed, after which two operators of different priority are
+   both active ... *)
+Theorem C13_clean_only_expired_refuted :
+  exists s s', run (net0 0) tr_stale_clean = Some s /\
+    is_up (n_ops s "b") = true /\ live_rec (n_now s) (n_status s) "b" = true /\
+    step s (LObserve "a" 3 ["b"] false) = Some s' /\
+    live_rec (n_now s') (n_status s') "b" = false /\
+    is_up (n_ops s' "a") = true /\ is_up (n_ops s' "b") = true /\
+    op_toggle (n_ops s' "a") = false /\ op_toggle (n_ops s' "b") = false /\
+    op_prio (n_ops s' "a") <> op_prio (n_ops s' "b").
+Proof. exact stale_clean_witness. Qed.
+Print Assumptions C13_clean_only_expired_refuted.
+
+(* ... and true when the event processed is the latest one (the snapshot is the current object) *)
+Theorem C13_clean_only_expired_partial : forall t0 tr s i v cleaned tg s' snap,
+  run (net0 t0) tr = Some s -> is_up (n_ops s i) = true ->
+  step s (LObserve i v cleaned tg) = Some s' -> op_inbox (n_ops s i) = [(v, snap)] ->
+  forall id, In id cleaned -> exists r, In (id, r) (n_status s) /\ dl_at (n_now s) r <= n_now s.
+Proof. exact clean_only_expired_when_current. Qed.
+Print Assumptions C13_clean_only_expired_partial.
+
+(* "removed on graceful exit" does not mean "stays removed" (F1302): the draining worker's wake-up
+   re-registers the exited operator ... *)
+Theorem C13_withdrawn_stays_refuted :
+  exists s1 s2, run (net0 0) tr_touch_after_exit = Some s1 /\ live_rec (n_now s1) (n_status s1) "c" = false /\
+    run s1 [LTick 12000; LWake "c"; LGone "c"] = Some s2 /\
+    op_phase (n_ops s2 "c") = Down /\ live_rec (n_now s2) (n_status s2) "c" = true.
+Proof. exact touch_after_exit_witness. Qed.
+Print Assumptions C13_withdrawn_stays_refuted.
+
+(* ... unless it exits with no armed sleep and nothing undelivered: then it can write nothing any more *)
+Theorem C13_withdrawn_stays_partial : forall s i, op_phase (n_ops s i) = Exiting ->
+  op_wake (n_ops s i) = None -> op_inbox (n_ops s i) = [] ->
+  step s (LWake i) = None /\ step s (LKeepalive i) = None /\ step s (LExit i) = None /\
+  forall v c t, step s (LObserve i v c t) = None.
+Proof. exact exiting_idle_is_silent. Qed.
+Print Assumptions C13_withdrawn_stays_partial.
